@@ -32,12 +32,18 @@ def run(prog, tier):
                "formulas.  Freshness follows: groups start above the count, the count dominates every mentioned variable.")
     R.trust("range(a, b) enumerates a..b-1; max() returns its largest argument",
             "TseitinFormula(graph) declares exactly one variable per edge of graph, in the order of new_graph_edges(graph)")
+    from ._shared import merge_filtered, group_semantics
+    R0 = R
+    confirmed = group_semantics(R0, prog, P)
+    R = Result(P, "")
     check_numvar(R, prog)
     check_check_first(R, prog)
     check_alloc_guard(R, prog)
     check_group_ids(R, prog)
     check_provenance(R, prog)
     check_declared_range(R, prog)
+    merge_filtered(R0, R, confirmed)
+    R = R0
     from ._shared import check_no_shared_state
     check_no_shared_state(R, prog, P, ['cnfgen.formula'], 120)
     from ._families import borrow as _borrow
